@@ -78,10 +78,13 @@ pub fn check_sign<S: PS>(
     }
     if repeat_on_thread {
         // "a function of nothing else": other thread, deeper stack, after unrelated calls
+        // the object handed to the other thread is a clone taken now, i.e. with whatever state the key object
+        // has accumulated (key types need not be Sync, only Send)
+        let sk_moved = sk_obj.clone();
         let again = std::thread::scope(|s| {
             std::thread::Builder::new()
                 .stack_size(64 << 20)
-                .spawn_scoped(s, || {
+                .spawn_scoped(s, move || {
                     fn deeper<S: PS>(d: usize, sk: &S::Sk, m: &[u8], cx: &[u8], mode: Mode, rnd: &[u8; 32]) -> Option<Vec<u8>> {
                         let pad = [d as u8; 1024];
                         if d > 0 {
@@ -95,7 +98,7 @@ pub fn check_sign<S: PS>(
                             _ => None,
                         }
                     }
-                    deeper::<S>(17, sk_obj, m, cx, mode, rnd)
+                    deeper::<S>(17, &sk_moved, m, cx, mode, rnd)
                 })
                 .expect("spawn")
                 .join()
